@@ -17,7 +17,7 @@ func init() {
 	core.Register(&core.PropDef{
 		ID:         "C07",
 		Run:        runC07,
-		RunRace:    func(c *core.Ctx) { coldSection(c, c.N(32, 800), []string{"datagram", "compound", "own-decoder"}) },
+		RunRace:    func(c *core.Ctx) { coldSection(c, c.N(66, 990), []string{"datagram", "compound", "own-decoder"}) },
 		RaceShards: 4,
 		RaceProcs:  4,
 		Technique:  "runtime dispatch-table oracle over all 256x32x2 header combinations, foreign-type rejection matrix over all ordered type pairs, self-dispatch of Marshal output",
@@ -83,7 +83,7 @@ func registeredBody(r *core.Rand, pt, count uint8) ([]byte, gen.Kind) {
 }
 
 func runC07(c *core.Ctx) {
-	coldSection(c, c.N(32, 800), []string{"datagram", "compound", "own-decoder"})
+	coldSection(c, c.N(66, 990), []string{"datagram", "compound", "own-decoder"})
 	// (0) whatever the body: an ACCEPTED single frame of a registered combination has the registered
 	// Go type. Every single-bit flip beyond the first two octets of a valid frame, and every aligned
 	// word replaced by capitals / magic words / zeros / ones: the decoder may reject such a frame,
